@@ -51,6 +51,13 @@ impl Arguments {
         });
     }
 
+    /// Takes the paths of the by ref arguments out of the arguments, by position.
+    /// They belong to the call that is being made, not to the variables the
+    /// arguments are about to become.
+    pub fn take_arg_paths(&mut self) -> Vec<Option<Path>> {
+        self.v.iter_mut().map(|a| a.arg_path.take()).collect()
+    }
+
     pub fn iter(&self) -> Iter<'_, ArgumentInfo> {
         self.v.iter()
     }
